@@ -7,18 +7,23 @@ RULE = ("%d random generator configurations (1-5 values of kind int/uint/double 
         "value injected as the fake client does) each run twice with the same seed for up to %d validated emissions (window 4x for look-ahead); TLC validates "
         "every emission against FakeQueueTrace.tla: it is the head of the first timestamp bucket with exactly the pending timestamp/content/repeat, "
         "timestamps never decrease, the inferred draw respects delta bounds / ranges with clamping / option lists (cyclic position), repeat counts are "
-        "exact, the sync value follows the first emission of every value, and both generators emit the same. distinct_nontrivial = distinct emission lines")
+        "exact, the sync value follows the first emission of every value, and both generators emit the same. Second stage: %d further configurations are "
+        "streamed by the repository's own fake gNMI agent (testing/fake/gnmi agent.go/client.go, which builds the queue and injects the sync marker itself) "
+        "over gRPC, twice each, and the responses read off the wire are validated by the same specification (repeat counts are checked through exhaustion, "
+        "the sync response carries no timestamp). distinct_nontrivial = distinct emission lines")
 
 
 def run(tier):
     n, emit = (1500, 60) if tier == "quick" else (60000, 120)
+    an = 400 if tier == "quick" else 12000
     sh = "16" if tier == "quick" else "48"
     return p_simple.run(PID, tier, [("FakeQueue.tla", "FakeQueue.cfg", False)],
-                        [["fakequeue", "random", "-n", str(n), "-emit", str(emit), "-shards", sh]],
-                        "FakeQueueTrace.tla", RULE % (n, emit),
+                        [["fakequeue", "random", "-n", str(n), "-emit", str(emit), "-shards", sh],
+                         ["fakequeue", "random", "-agent", "-n", str(an), "-emit", str(emit), "-shards", sh]],
+                        "FakeQueueTrace.tla", RULE % (n, emit, an),
                         ["configurations stay far from int64 overflow", "doubles are logged in thousandths (slack 1 for rounding)",
                          "the draw of the pseudo-random generator is inferred from the same value's next emission in the recorded sequence",
-                         "string-list values (subset/rotation) and the FixedQueue are not covered"],
+                         "string-list (leaf-list) values and the FixedQueue are not covered; the agent stage uses STREAM subscriptions without delays"],
                         boundary=("cfg",), trivial=lambda l: b'"ev":"cfg"' in l or b'"ev":"end"' in l)
 
 
